@@ -7,6 +7,7 @@ package config
 // Config values, called in the order ReadConfig calls them.
 
 import (
+	"time"
 	"encoding/json"
 	"fmt"
 	"math/rand"
@@ -301,6 +302,14 @@ func c44Run(r *vrep.R, e *c44Env, c c44Case, reached map[string]bool) {
 	}
 	exElectrum := e.explicitElectrum(c.Electrum, selected.defaults)
 	cfg.Bitcoin.Electrum.URL = exElectrum
+	// the other Electrum connection parameters are explicit in every case: filling in a
+	// default URL must not touch them
+	exParams := [5]time.Duration{7 * time.Second, 11 * time.Second, 13 * time.Second, 17 * time.Second, 19 * time.Minute}
+	cfg.Bitcoin.Electrum.ConnectTimeout = exParams[0]
+	cfg.Bitcoin.Electrum.ConnectRetryTimeout = exParams[1]
+	cfg.Bitcoin.Electrum.RequestTimeout = exParams[2]
+	cfg.Bitcoin.Electrum.RequestRetryTimeout = exParams[3]
+	cfg.Bitcoin.Electrum.KeepAliveInterval = exParams[4]
 	exAddr := map[int]string{}
 	for i, ct := range c44Contracts {
 		key := strings.ToLower(ct.name)
@@ -355,6 +364,10 @@ func c44Run(r *vrep.R, e *c44Env, c c44Case, reached map[string]bool) {
 	}
 
 	// --- electrum
+	if got := [5]time.Duration{cfg.Bitcoin.Electrum.ConnectTimeout, cfg.Bitcoin.Electrum.ConnectRetryTimeout, cfg.Bitcoin.Electrum.RequestTimeout,
+		cfg.Bitcoin.Electrum.RequestRetryTimeout, cfg.Bitcoin.Electrum.KeepAliveInterval}; got != exParams {
+		report("electrum-params", fmt.Sprintf("explicit Electrum connection parameters %v became %v", exParams, got))
+	}
 	switch {
 	case c.Electrum >= 1:
 		if cfg.Bitcoin.Electrum.URL != exElectrum {
